@@ -30,7 +30,7 @@ def file_records(fmt, opts, text):
                         'sent': [treeio.chars(w) for w in right.split(' ')] if right != '' else []})
         return {'lines': out}
     if fmt == 'terminals':
-        return {'lines': [[treeio.chars(t) for t in ln.split()] for ln in lines]}
+        return {'lines': [[treeio.chars(t) for t in fam_io.ws_split(ln)] for ln in lines]}
     raise ValueError(fmt)
 
 
@@ -67,7 +67,7 @@ def spec_text(split):
     return render(split)
 
 
-def record_cli_case(cid, corpora, srcfmt, destfmt, split, filt, mods, seed, origin='tlc', with_back=True):
+def record_cli_case(cid, corpora, srcfmt, destfmt, split, filt, mods, seed, origin='tlc', with_back=True, force=None):
     """corpora: list (one per source file) of lists of abstract trees"""
     mods = mods or treeio.repo_modules()
     rnd = random.Random(seed)
@@ -80,6 +80,8 @@ def record_cli_case(cid, corpora, srcfmt, destfmt, split, filt, mods, seed, orig
         destopts = ['gf']
     elif destfmt == 'brackets' and r_ < 0.6:
         destopts = ['brackets_emptyroot']
+    if force and 'destopts' in force:
+        destopts = list(force['destopts'])
     srcopts = []
     r2_ = rnd.random()
     if srcfmt in ('export', 'tigerxml') and r2_ < 0.25:
@@ -89,6 +91,17 @@ def record_cli_case(cid, corpora, srcfmt, destfmt, split, filt, mods, seed, orig
     src_enc = rnd.choice(['utf-8', 'latin-1', 'utf-16']) if srcfmt != 'tigerxml' else 'utf-8'
     dest_enc = rnd.choice(['utf-8', 'utf-8', 'latin-1', 'utf-16'])
     gz = srcfmt in ('export', 'brackets', 'discobrackets') and rnd.random() < 0.4
+    if srcfmt == 'tigerxml' and (seed % 3 == 0 or (force and force.get('tiger_missing'))):
+        # TIGER-XML source without the optional lemma / morph attributes: the trees carry no value there
+        import copy
+        corpora = copy.deepcopy(corpora)
+        for Ts in corpora:
+            for T in Ts:
+                for x in T['nodes']:
+                    if x['tok']:
+                        for k_ in ('lemma', 'morph'):
+                            if rnd.random() < 0.6:
+                                x['a'][k_] = ['~~']
     sids, texts = [], []
     for ci, Ts in enumerate(corpora):
         s0 = rnd.choice([1, 10, 100])
